@@ -42,6 +42,7 @@ type c04Block struct {
 }
 
 type c04Plan struct {
+	noPlaceholder bool // C08 positions: a placeholder declaration is rendered by another renderer
 	classes  map[string]bool
 	excluded []string
 }
@@ -99,6 +100,13 @@ func c04SplitType(t *rapid.T, td *TypeDecl, plan *c04Plan) []*TypeDecl {
 		}
 	}
 	out[rapid.IntRange(0, len(out)-1).Draw(t, "metapart")].Meta = td.Meta
+	if !plan.noPlaceholder && rapid.IntRange(0, 3).Draw(t, "placeholderpart") == 0 {
+		// one more declaration of the type that has no body ('!type T: ...'), before, between or after the others
+		ph := &TypeDecl{Kind: td.Kind, Name: td.Name}
+		k := rapid.IntRange(0, len(out)).Draw(t, "placeholderat")
+		out = append(out[:k], append([]*TypeDecl{ph}, out[k:]...)...)
+		plan.classes["type_placeholder_declaration"] = true
+	}
 	if len(out) >= 2 {
 		plan.classes["type_fields_split"] = true
 		if td.Kind == "relation" {
